@@ -3,6 +3,7 @@ package main
 // Calls: builtins, contracts (modular), inlining, intrinsics, havoc.
 
 import (
+	"go/ast"
 	"fmt"
 	"go/types"
 	"strings"
@@ -68,6 +69,9 @@ func (fr *frame) call(ci ssa.CallInstruction, res ssa.Value, st *State, reach st
 		if mc, ok := com.Value.(*ssa.MakeClosure); ok {
 			_ = mc
 		}
+	} else if fn := fr.aliasedFunc(com.Value); fn != nil {
+		// call through a package-level function variable that is a plain alias (var Wrap = errorsmod.Wrap)
+		callee = fn
 	} else {
 		// call of a function value
 		fv := fr.val(com.Value)
@@ -722,4 +726,66 @@ func (fr *frame) extCall(key string, reach string) {
 
 func isGeneratedKey(key string) bool {
 	return strings.Contains(key, ".pb.go") || strings.HasSuffix(key, ").String") || strings.HasSuffix(key, ").ProtoMessage") || strings.HasSuffix(key, ").Reset")
+}
+
+// funcAliases: package-level function variables of dependencies that are deprecated aliases of a function and are
+// assigned nowhere (read from the SDK source: types/errors/errors.go `var Wrap = errorsmod.Wrap`).
+var funcAliases = map[string]string{
+	"github.com/cosmos/cosmos-sdk/types/errors.Wrap":  "cosmossdk.io/errors.Wrap",
+	"github.com/cosmos/cosmos-sdk/types/errors.Wrapf": "cosmossdk.io/errors.Wrapf",
+}
+
+// aliasedFunc resolves `load(global)` where the global is a known function alias, checking the alias against the
+// initialiser in the dependency's source (so a different SDK version cannot silently change the meaning).
+func (fr *frame) aliasedFunc(v ssa.Value) *ssa.Function {
+	u, ok := v.(*ssa.UnOp)
+	if !ok {
+		return nil
+	}
+	gl, ok := u.X.(*ssa.Global)
+	if !ok || gl.Pkg == nil {
+		return nil
+	}
+	target, ok := funcAliases[gl.Pkg.Pkg.Path()+"."+gl.Name()]
+	if !ok {
+		return nil
+	}
+	g := fr.ft.g
+	p := g.allPkgs[gl.Pkg.Pkg.Path()]
+	if p == nil || p.TypesInfo == nil {
+		return nil
+	}
+	for _, f := range p.Syntax {
+		for _, d := range f.Decls {
+			gd, ok := d.(*ast.GenDecl)
+			if !ok {
+				continue
+			}
+			for _, sp := range gd.Specs {
+				vs, ok := sp.(*ast.ValueSpec)
+				if !ok || len(vs.Values) != len(vs.Names) {
+					continue
+				}
+				for i, id := range vs.Names {
+					if id.Name != gl.Name() {
+						continue
+					}
+					var obj types.Object
+					switch e := ast.Unparen(vs.Values[i]).(type) {
+					case *ast.Ident:
+						obj = p.TypesInfo.Uses[e]
+					case *ast.SelectorExpr:
+						obj = p.TypesInfo.Uses[e.Sel]
+					}
+					fo, ok := obj.(*types.Func)
+					if !ok || fo.Pkg() == nil || fo.Pkg().Path()+"."+fo.Name() != target {
+						return nil
+					}
+					fr.ft.assumed["package-level function variable "+gl.Pkg.Pkg.Path()+"."+gl.Name()+" is an alias of "+target+" (its initialiser) and is assigned nowhere"] = true
+					return g.prog.FuncValue(fo)
+				}
+			}
+		}
+	}
+	return nil
 }
